@@ -232,6 +232,19 @@ def gen(rng, depth, deep=False):
     return {'c': c, 'k': [gen(rng, depth - 1, deep) for _ in range(CTORS[c][0])]}
 
 
+def sibling(rng, tree):
+    """A tree of the same shape with one atom replaced: comparisons between hints of one family (Literal vs Literal,
+    list[X] vs list[Y], Callable vs Callable) reach the family-specific subhint code."""
+    if 'a' in tree:
+        return {'a': rng.choice(_SHALLOW_ATOMS)}
+    kids = list(tree['k'])
+    if not kids:
+        return tree
+    i = rng.randrange(len(kids))
+    kids[i] = sibling(rng, kids[i])
+    return {'c': tree['c'], 'k': kids}
+
+
 def mentions(tree, atoms):
     if 'a' in tree:
         return tree['a'] in atoms
